@@ -1299,6 +1299,181 @@ mod http_mock {
 	}
 }
 
+/// C03 / C12: the ids that calls, subscribes and batch entries have on the wire while they are pending together are pairwise
+/// distinct (both clients), and an answer to an entry of one batch never completes another batch.
+pub fn client_pending_ids_distinct() -> Value {
+	use jsonrpsee_core::client::IdKind;
+	// op: 0 = call, 1 = subscribe, n >= 2 = batch of n-1 entries... spelled out below
+	#[derive(Clone, Copy, Debug)]
+	enum Op { Call, Subscribe, Batch(usize) }
+	let histories: Vec<Vec<Op>> = vec![
+		vec![Op::Batch(3), Op::Call],
+		vec![Op::Batch(2), Op::Batch(1)],
+		vec![Op::Call, Op::Batch(3), Op::Call, Op::Batch(2), Op::Call],
+		vec![Op::Batch(2), Op::Subscribe, Op::Batch(2), Op::Call],
+		vec![Op::Subscribe, Op::Batch(4), Op::Subscribe, Op::Batch(1), Op::Batch(3)],
+		vec![Op::Batch(1), Op::Batch(1), Op::Call],
+	];
+	let fail = |input: String, obs: String, exp: &str| json!({"probe":"client_pending_ids_distinct","disagrees":true,"input":input,"observed":obs,"expected":exp});
+	let mut tried = 0u64;
+	// ---- the async (WS) client over the in-memory transport: nothing is answered, so everything stays pending
+	let r = rt().block_on(async {
+		for kind in [IdKind::Number, IdKind::String] {
+			for h in &histories {
+				let (c, mut peer) = mock::client(ClientBuilder::default().id_format(kind));
+				let c = std::sync::Arc::new(c);
+				let mut seen: Vec<(usize, Value)> = Vec::new();
+				let mut tasks = Vec::new();
+				for (k, op) in h.iter().enumerate() {
+					let c2 = c.clone();
+					match *op {
+						Op::Call => tasks.push(tokio::spawn(async move { let _ = c2.request::<String, _>("m", rpc_params![]).await; })),
+						Op::Subscribe => tasks.push(tokio::spawn(async move { let _ = c2.subscribe::<String, _>("sub", rpc_params![], "unsub").await; })),
+						Op::Batch(n) => tasks.push(tokio::spawn(async move {
+							let mut b = BatchRequestBuilder::new();
+							for i in 0..n { b.insert("m", rpc_params![i]).unwrap(); }
+							let _ = c2.batch_request::<String>(b).await;
+						})),
+					}
+					let Some(m) = peer.next().await else { return Some(fail(format!("{kind:?} ids, operations {h:?} started one after the other, none answered"), format!("operation {k} put nothing on the wire"), "a message")); };
+					let v: Value = serde_json::from_str(&m).unwrap();
+					match v {
+						Value::Array(es) => for e in es { seen.push((k, e["id"].clone())); },
+						o => seen.push((k, o["id"].clone())),
+					}
+				}
+				for a in 0..seen.len() {
+					for b in a + 1..seen.len() {
+						if seen[a].1 == seen[b].1 {
+							return Some(fail(format!("async client, {kind:?} ids, operations {h:?} started one after the other, none answered"),
+								format!("operations {} and {} both put the id {} on the wire while pending", seen[a].0, seen[b].0, seen[a].1),
+								"pairwise distinct ids for calls / batch entries pending together"));
+						}
+					}
+				}
+				for t in tasks { t.abort(); }
+			}
+		}
+		// an answer to ONE entry of batch A (its other answer omitted) must not complete batch B
+		for kind in [IdKind::Number, IdKind::String] {
+			let (c, mut peer) = mock::client(ClientBuilder::default().id_format(kind));
+			let c = std::sync::Arc::new(c);
+			let (ca, cb) = (c.clone(), c.clone());
+			let fa = tokio::spawn(async move {
+				let mut b = BatchRequestBuilder::new();
+				b.insert("a0", rpc_params![]).unwrap();
+				b.insert("a1", rpc_params![]).unwrap();
+				ca.batch_request::<String>(b).await
+			});
+			let ma: Value = serde_json::from_str(&peer.next().await.unwrap()).unwrap();
+			let fb = tokio::spawn(async move {
+				let mut b = BatchRequestBuilder::new();
+				b.insert("b0", rpc_params![]).unwrap();
+				cb.batch_request::<String>(b).await
+			});
+			let _mb = peer.next().await.unwrap();
+			peer.send(&json!([{"jsonrpc":"2.0","id":ma[1]["id"],"result":"answer-to-a1"}]).to_string());
+			let rb = tokio::time::timeout(std::time::Duration::from_millis(400), fb).await;
+			if let Ok(Ok(Ok(br))) = rb {
+				let got: Vec<_> = br.into_iter().collect();
+				if got.iter().any(|e| e.as_ref().ok().map(|s| s.as_str()) == Some("answer-to-a1")) {
+					return Some(fail(format!("async client, {kind:?} ids: batch A = [a0, a1] and batch B = [b0] pending; the server sends only [answer to a1]"),
+						format!("batch B completed with {got:?}"), "B is not completed by an answer to A's entry"));
+				}
+			}
+			fa.abort();
+		}
+		None
+	});
+	if let Some(f) = r { return f; }
+	tried += 2 * histories.len() as u64 + 2;
+	// ---- the HTTP client: a middleware records the ids and answers late, so the operations are pending together
+	{
+		use jsonrpsee_core::client::{Error, MiddlewareBatchResponse, MiddlewareMethodResponse, MiddlewareNotifResponse};
+		use jsonrpsee_core::middleware::{Batch, BatchEntry, Notification, RpcServiceBuilder, RpcServiceT};
+		use jsonrpsee_http_client::HttpClientBuilder;
+		use jsonrpsee_types::Request;
+		use std::sync::{Arc, Mutex};
+		#[derive(Clone)]
+		struct Rec<S> { inner: S, ids: Arc<Mutex<Vec<(u64, String)>>>, opno: Arc<std::sync::atomic::AtomicU64> }
+		impl<S> RpcServiceT for Rec<S>
+		where
+			S: RpcServiceT<MethodResponse = Result<MiddlewareMethodResponse, Error>, BatchResponse = Result<MiddlewareBatchResponse, Error>, NotificationResponse = Result<MiddlewareNotifResponse, Error>> + Send + Sync + Clone + 'static,
+		{
+			type MethodResponse = Result<MiddlewareMethodResponse, Error>;
+			type BatchResponse = Result<MiddlewareBatchResponse, Error>;
+			type NotificationResponse = Result<MiddlewareNotifResponse, Error>;
+			fn call<'a>(&self, request: Request<'a>) -> impl Future<Output = Self::MethodResponse> + Send + 'a {
+				let k = self.opno.fetch_add(1, std::sync::atomic::Ordering::SeqCst);
+				self.ids.lock().unwrap().push((k, serde_json::to_string(&request.id).unwrap()));
+				async move {
+					tokio::time::sleep(std::time::Duration::from_millis(250)).await;
+					Err(Error::Custom("not answered".into()))
+				}
+			}
+			fn batch<'a>(&self, requests: Batch<'a>) -> impl Future<Output = Self::BatchResponse> + Send + 'a {
+				let k = self.opno.fetch_add(1, std::sync::atomic::Ordering::SeqCst);
+				for e in requests.iter() {
+					if let Ok(BatchEntry::Call(r)) = e {
+						self.ids.lock().unwrap().push((k, serde_json::to_string(&r.id).unwrap()));
+					}
+				}
+				async move {
+					tokio::time::sleep(std::time::Duration::from_millis(250)).await;
+					Err(Error::Custom("not answered".into()))
+				}
+			}
+			fn notification<'a>(&self, n: Notification<'a>) -> impl Future<Output = Self::NotificationResponse> + Send + 'a {
+				self.inner.notification(n)
+			}
+		}
+		let r = rt().block_on(async {
+			for kind in [IdKind::Number, IdKind::String] {
+				for h in &histories {
+					if h.iter().any(|o| matches!(o, Op::Subscribe)) { continue; }
+					let ids = Arc::new(Mutex::new(Vec::new()));
+					let opno = Arc::new(std::sync::atomic::AtomicU64::new(0));
+					let (ids2, opno2) = (ids.clone(), opno.clone());
+					let mw = RpcServiceBuilder::new().layer_fn(move |inner| Rec { inner, ids: ids2.clone(), opno: opno2.clone() });
+					let client = Arc::new(HttpClientBuilder::default().id_format(kind).set_rpc_middleware(mw).build("http://127.0.0.1:9").unwrap());
+					let mut tasks = Vec::new();
+					for (k, op) in h.iter().enumerate() {
+						let c2 = client.clone();
+						match *op {
+							Op::Batch(n) => tasks.push(tokio::spawn(async move {
+								let mut b = BatchRequestBuilder::new();
+								for i in 0..n { b.insert("m", rpc_params![i]).unwrap(); }
+								let _ = c2.batch_request::<String>(b).await;
+							})),
+							_ => tasks.push(tokio::spawn(async move { let _ = c2.request::<String, _>("m", rpc_params![]).await; })),
+						}
+						// started one after the other: wait until this operation reached the middleware
+						for _ in 0..200 {
+							if opno.load(std::sync::atomic::Ordering::SeqCst) > k as u64 { break; }
+							tokio::time::sleep(std::time::Duration::from_millis(1)).await;
+						}
+					}
+					let seen = ids.lock().unwrap().clone();
+					for a in 0..seen.len() {
+						for b in a + 1..seen.len() {
+							if seen[a].1 == seen[b].1 {
+								return Some(fail(format!("HTTP client, {kind:?} ids, operations {h:?} started one after the other, all pending for 250 ms"),
+									format!("operations {} and {} both put the id {} on the wire while pending", seen[a].0, seen[b].0, seen[a].1),
+									"pairwise distinct ids for calls / batch entries pending together"));
+							}
+						}
+					}
+					for t in tasks { let _ = t.await; }
+				}
+			}
+			None
+		});
+		if let Some(f) = r { return f; }
+		tried += 8;
+	}
+	json!({"probe":"client_pending_ids_distinct","disagrees":false,"inputs_tried":tried,"bound":"6 operation sequences (calls, subscribes, batches of 1..4) x 2 id kinds on the async client, 4 x 2 on the HTTP client; one cross-batch answer history per id kind"})
+}
+
 /// C03 (HTTP client): a single call completes with a value or an error object only from a reply carrying the call's own id.
 pub fn http_client_single_reply_id() -> Value {
 	use jsonrpsee_core::client::{Error, MiddlewareBatchResponse, MiddlewareMethodResponse, MiddlewareNotifResponse, RawResponseOwned};
